@@ -394,6 +394,11 @@ Section KCirc.
   Qed.
 
   (* ---- THE theorem, about the executable dense model ---- *)
+  Lemma ksupp_init n : ksupp R rO n (kinit n).
+  Proof.
+    intros u Hu _ x Hx. cbn [kpsi kinit]. destruct (Nat.eqb_spec (idx n x) 0) as [Hz|Hz]; [|reflexivity].
+    pose proof (idx_zero_inv n x Hz u Hu) as Hf. congruence.
+  Qed.
   Lemma kinv_init n : kinv R (kinit n).
   Proof. split; [reflexivity | constructor]. Qed.
   Theorem circuit_kraus_dense n c ops : ccircuit_ops c = Some ops -> forallb (cinstr_lanes_ok n) c = true -> ccircuit_ok (kinit n) c = true ->
